@@ -86,8 +86,9 @@ def interleave(k1: OI, a1: int, n1: int, k2: int, a2: OI, n2: int, s0: bool, s1:
     pre: 0 <= n1 <= MAXN and 0 <= n2 <= MAXN
     post: _
     """
-    d1 = mkdoc(k1, a1, 1, a1, n1)
-    d2 = mkdoc(k2, a2, k2, 0, n2)
+    # the first document always has two candidates: a value cached while the other iterator ran is used for the second
+    d1 = mkdoc(k1, a1, 1, a1, 2 + n1 - n1)
+    d2 = mkdoc(k2, a2, k2, 0, 1 + n2)
     c1, c2 = {"k": k1, "xs": []}, {"k": k2, "xs": [1]}
     e1 = sig(C_OFF.finditer(d1, filter_context=c1))
     e2 = sig(C_OFF.finditer(d2, filter_context=c2))
